@@ -1,8 +1,9 @@
 (* C17 - what is rendered does not depend on what was processed before.
-   State that survives a run: the per-command leniency overrides written by the help resolver.  run_on st a toks
-   gives the new overrides and the summary of the run (settings + action, C09).  restores_effective st a toks:
-   the value the help resolver restores on the help target is the value that was effective before - which is what
-   the repaired code does (try/finally around the previous is_lenient_args_parsing_enabled()). *)
+   State that survives a run: the per-command leniency overrides written by the help resolver, one per command OBJECT
+   (a command is identified by its position in the built tree, Model/AppState.v).  run_on st a toks gives the new
+   overrides and the summary of the run (settings + action, C09).  restores_effective st a toks: the value the help
+   resolver restores on the command it was handed is the value that was effective before - which is what the
+   repaired code does (try/finally around the previous is_lenient_args_parsing_enabled()). *)
 From Clikit Require Import Base.Prelude Base.Res Model.Conv Model.Format Model.Parser Model.Resolver Model.Run
      Model.Tokenizer Model.Switches Model.AppState Proofs.AppStateLemmas.
 
@@ -27,66 +28,90 @@ Proof. exact style_step_other. Qed.
 Print Assumptions styles_independent.
 
 (* ================= the hypothesis restores_effective discharged (Proofs/AppStateRestoreLemmas.v) =================
-   The override the restore records is keyed by the path of names; it is harmless as soon as the commands that share
-   a path share their leniency (lenient_by_path), in particular when sibling commands have distinct names at every
-   level (siblings_distinct, a boolean on the application).  build_app refuses a second top-level command with a name
-   already present and keeps all the sub-commands of a command, so for a built application the condition is
-   cfg_subs_distinct: the enabled sub-commands of every enabled command of the CONFIGURATION have distinct names. *)
+   The override the restore records is keyed by the POSITION of the command object the resolver was handed: the index,
+   level by level, of the sibling the collections resolve (CommandCollection.add: the LAST sibling added under a name),
+   and for a default sub-command the last default sibling of the picked name.  A position holds one command, so the
+   restore is exact for EVERY application - built or not, whatever the names of the siblings.  No naming hypothesis
+   (siblings_distinct / cfg_subs_distinct of the previous round) is left. *)
 From Clikit Require Import Proofs.AppStateRestoreLemmas.
 
-Theorem restores_effective_holds : forall st a toks, siblings_distinct a = true -> restores_effective st a toks.
+Theorem restores_effective_holds : forall st a toks, restores_effective st a toks.
 Proof. exact AppStateRestoreLemmas.restores_effective_holds. Qed.
 Print Assumptions restores_effective_holds.
 
-(* the weakest form proved: commands at the same path agree on their leniency *)
-Theorem restores_effective_by_path : forall st a toks, lenient_by_path a -> restores_effective st a toks.
-Proof. exact AppStateRestoreLemmas.restores_effective_by_path. Qed.
-Print Assumptions restores_effective_by_path.
-
-Theorem leniency_restored_unconditional : forall st a toks, siblings_distinct a = true ->
+Theorem leniency_restored_unconditional : forall st a toks,
   apply_state (fst (run_on st a toks)) a = apply_state st a.
 Proof. exact run_on_state_holds. Qed.
 Print Assumptions leniency_restored_unconditional.
 
-Theorem runs_independent_unconditional : forall a lines, siblings_distinct a = true ->
+(* every application (any value of type application: a top level with repeated names is not even excluded) *)
+Theorem runs_independent_unconditional : forall a lines,
   runs_on [] a lines = map (fun l => snd (run_on [] a l)) lines.
 Proof. exact runs_independent_fresh. Qed.
 Print Assumptions runs_independent_unconditional.
 
-Theorem runs_independent_unconditional_from : forall a lines st, siblings_distinct a = true ->
+Theorem runs_independent_unconditional_from : forall a lines st,
   apply_state st a = apply_state [] a ->
   runs_on st a lines = map (fun l => snd (run_on [] a l)) lines.
 Proof. exact runs_independent_from. Qed.
 Print Assumptions runs_independent_unconditional_from.
 
-(* built applications: the top level is distinct by construction, the sub-commands by the configuration *)
-Theorem built_siblings_distinct : forall cfg a, build_app cfg = Ok a -> cfg_subs_distinct cfg = true ->
-  siblings_distinct a = true.
-Proof. exact build_app_siblings_distinct. Qed.
-Print Assumptions built_siblings_distinct.
-
-Theorem restores_effective_built : forall cfg a st toks, build_app cfg = Ok a -> cfg_subs_distinct cfg = true ->
-  restores_effective st a toks.
-Proof. exact AppStateRestoreLemmas.restores_effective_built. Qed.
-Print Assumptions restores_effective_built.
-
-Theorem runs_independent_built : forall cfg a lines, build_app cfg = Ok a -> cfg_subs_distinct cfg = true ->
+(* in particular every built application, whatever the configuration *)
+Theorem runs_independent_built : forall cfg a lines, build_app cfg = Ok a ->
   runs_on [] a lines = map (fun l => snd (run_on [] a l)) lines.
-Proof. exact AppStateRestoreLemmas.runs_independent_built. Qed.
+Proof. intros cfg a lines _. apply runs_independent_fresh. Qed.
 Print Assumptions runs_independent_built.
 
-Theorem runs_independent_built_from : forall cfg a lines st, build_app cfg = Ok a -> cfg_subs_distinct cfg = true ->
-  apply_state st a = apply_state [] a ->
-  runs_on st a lines = map (fun l => snd (run_on [] a l)) lines.
-Proof. exact AppStateRestoreLemmas.runs_independent_built_from. Qed.
-Print Assumptions runs_independent_built_from.
+(* what the wire function run_C17 answers for a built application IS the list of fresh answers *)
+Theorem run_C17_is_fresh : forall cfg a lines, build_app cfg = Ok a ->
+  map (fun sm => (sm_settings sm, sm_action sm)) (runs_on [] a lines) =
+  map (fun l => let sm := run_summary false a l in (sm_settings sm, sm_action sm)) lines.
+Proof.
+  intros cfg a lines _. rewrite runs_independent_fresh, map_map. apply map_ext. intros l. unfold run_on. cbn [snd].
+  assert (apply_state [] a = a) as ->; [|reflexivity].
+  destruct a as [g cs]. unfold apply_state. cbn [ap_global ap_cmds]. f_equal.
+  assert (forall c p, apply_cmd [] p c = c) as Hc.
+  { induction c as [n al d an len f subs IH] using bcmd_ind'. intros p. rewrite apply_cmd_eq. cbn [lookup]. f_equal.
+    generalize 0. induction IH as [|s r Hs Hr IHr]; intros i; cbn [apply_forest]; [reflexivity|]. now rewrite Hs, IHr. }
+  generalize 0. induction cs as [|c r IH]; intros i; cbn [apply_forest]; [reflexivity|]. now rewrite Hc, IH.
+Qed.
+Print Assumptions run_C17_is_fresh.
 
-(* a configuration whose commands have no sub-commands meets the condition: nothing is asked of it *)
-Theorem runs_independent_built_flat : forall cfg a lines, build_app cfg = Ok a ->
-  forallb (fun c => match c_subs c with [] => true | _ => false end) (ac_cmds cfg) = true ->
-  runs_on [] a lines = map (fun l => snd (run_on [] a l)) lines.
-Proof. intros cfg a lines Hb Hf. exact (AppStateRestoreLemmas.runs_independent_built cfg a lines Hb (cfg_flat_distinct cfg Hf)). Qed.
-Print Assumptions runs_independent_built_flat.
+(* ---- the position is the right one ----
+   help_target (C09 / C13) is help_pick followed by the lenient parse; the position help_pick reports exists, holds
+   exactly the command picked (the one the collections resolved), and the names along it are the reported path; the
+   value run_on records for it is the leniency that command has in the current state (was_lenient). *)
+Theorem help_target_is_pick : forall a toks,
+  help_target a toks =
+  (do t <- help_pick a toks; let '(c, pth, _) := t in do x <- parse (b_fmt c) true (strip_help toks); Ok pth).
+Proof. exact AppStateRestoreLemmas.help_target_is_pick. Qed.
+Print Assumptions help_target_is_pick.
+
+Theorem help_pick_position : forall a toks c pth o, help_pick a toks = Ok (c, pth, o) ->
+  exists p, o = Some p /\ cmd_at (ap_cmds a) p = Some c /\ names_at (ap_cmds a) p = Some pth.
+Proof. exact AppStateRestoreLemmas.help_pick_position. Qed.
+Print Assumptions help_pick_position.
+
+Theorem help_target_has_position : forall a toks pth, help_target a toks = Ok pth ->
+  exists c p, help_pick a toks = Ok (c, pth, Some p) /\ help_target_pos a toks = Some p /\
+              cmd_at (ap_cmds a) p = Some c /\ names_at (ap_cmds a) p = Some pth.
+Proof. exact AppStateRestoreLemmas.help_target_has_position. Qed.
+Print Assumptions help_target_has_position.
+
+Theorem run_on_records : forall st a toks c pth o, help_pick (apply_state st a) toks = Ok (c, pth, o) ->
+  exists p, help_target_pos (apply_state st a) toks = Some p /\ eff st a p = Some (b_lenient c).
+Proof. exact AppStateRestoreLemmas.run_on_records. Qed.
+Print Assumptions run_on_records.
+
+(* what a collection holds under a name is the LAST sibling filed under it (and what walk / pick_default use) *)
+Theorem collection_resolves_last : forall keep l n b, coll_get (coll_of (filter keep l)) n = Ok b ->
+  exists i, last_named keep (b_name b) l = Some i /\ nth_error l i = Some b /\
+            forall j c, i < j -> nth_error l j = Some c -> keep c && str_eqb (b_name c) (b_name b) = false.
+Proof.
+  intros keep l n b H. destruct (coll_get_pos keep l n b H) as (i & Hi & Hn). exists i. repeat split; [exact Hi|exact Hn|].
+  exact (last_named_last keep (b_name b) l i Hi).
+Qed.
+Print Assumptions collection_resolves_last.
 
 (* ---- non-vacuity: a built application, a history with two help requests around a strict and a lenient command ---- *)
 Definition C17_COMMAND : str := [99;111;109;109;97;110;100]%N.       (* command *)
@@ -111,64 +136,94 @@ Definition c17_history : list (list str) :=
    [C17_GRP; C17_LOOSE; C17_EXTRA]; [C17_GRP; C17_STRICT; C17_EXTRA]].
 
 Example ex_runs_independent_built :
-  cfg_subs_distinct c17_cfg = true /\
   match build_app c17_cfg with
   | Ok a =>
-    siblings_distinct a = true /\
     map sm_action (runs_on [] a c17_history) =
       [AError CannotParse; AHandler [C17_GRP; C17_LOOSE];
        AHelpCmd [C17_GRP; C17_STRICT];
        AError CannotParse;
        AHelpCmd [C17_GRP; C17_LOOSE];
        AHandler [C17_GRP; C17_LOOSE]; AError CannotParse] /\
-    (* both help requests did record an override, and it is the effective value *)
-    fst (run_on [] a [S_help; C17_GRP; C17_STRICT]) = [([C17_GRP; C17_STRICT], false)] /\
-    fst (run_on [([C17_GRP; C17_STRICT], false)] a [C17_GRP; C17_LOOSE; T_help]) =
-      [([C17_GRP; C17_LOOSE], true); ([C17_GRP; C17_STRICT], false)] /\
+    (* both help requests did record an override, on the position of the command, and it is the effective value *)
+    fst (run_on [] a [S_help; C17_GRP; C17_STRICT]) = [([1; 0], false)] /\
+    fst (run_on [([1; 0], false)] a [C17_GRP; C17_LOOSE; T_help]) = [([1; 1], true); ([1; 0], false)] /\
     runs_on [] a c17_history = map (fun l => snd (run_on [] a l)) c17_history
   | Err _ => False
   end.
 Proof. vm_compute. repeat split; reflexivity. Qed.
-(* the same equation, from the theorem: its hypotheses are met by this configuration *)
+(* the same equation, from the theorem *)
 Example ex_runs_independent_built_by_theorem : forall a, build_app c17_cfg = Ok a ->
   runs_on [] a c17_history = map (fun l => snd (run_on [] a l)) c17_history /\
   (forall st toks, restores_effective st a toks).
 Proof.
-  intros a Hb. assert (cfg_subs_distinct c17_cfg = true) as Hc by (vm_compute; reflexivity). split.
-  - exact (runs_independent_built c17_cfg a c17_history Hb Hc).
-  - intros st toks. exact (restores_effective_built c17_cfg a st toks Hb Hc).
+  intros a Hb. split.
+  - exact (runs_independent_built c17_cfg a c17_history Hb).
+  - intros st toks. apply restores_effective_holds.
 Qed.
 
-(* ---- REFUTED without the condition: two sub-commands with the same name and different leniency ----
-   build_cmd keeps both; the named collection (walk) resolves "grp x" to the LAST one (lenient), find_path / eff read
-   the FIRST one (strict): the help request "help grp x" records ([grp; x], false), apply_cmd applies it to both, and
-   the later line "grp x extra" that ran the handler before is now refused.
-   This is a property of the MODEL's path-keyed override table only: in the Python code the override lives on the
-   CommandConfig object of the command that was resolved, so the restore is exact there (observed: the same history on
-   ConsoleApplication gives "handled" three times).  See the report of branch c17-restore. *)
+(* ---- two sub-commands with the same name and different leniency (REFUTED for the previous, name-keyed model) ----
+   build_cmd keeps both; the named collection (walk) resolves "grp x" to the LAST one; the help request records its
+   override on THAT command (position [1; 1]) and the first sibling (position [1; 0]) is never touched.  Observed on
+   ConsoleApplication (grp{x strict, x lenient}): "grp x extra" is handled by the lenient command before and after
+   "help grp x" and "grp x --help", and only the second CommandConfig ever leaves _lenient_args_parsing = None;
+   with the siblings the other way round (x lenient, x strict) the line is refused before and after, and the strict
+   configuration ends with False.  Both orders below. *)
 Definition c17_dup_grp : cmd :=
   Cmd C17_GRP [] false false true false [] []
     [Cmd C17_X [] false false true false [] [] [];
      Cmd C17_X [] false false true true [] [] []].
 Definition c17_dup_cfg : appcfg := {| ac_opts := [c17_o_help]; ac_args := []; ac_cmds := [c17_help; c17_dup_grp] |}.
+Definition c17_dup_grp' : cmd :=
+  Cmd C17_GRP [] false false true false [] []
+    [Cmd C17_X [] false false true true [] [] [];
+     Cmd C17_X [] false false true false [] [] []].
+Definition c17_dup_cfg' : appcfg := {| ac_opts := [c17_o_help]; ac_args := []; ac_cmds := [c17_help; c17_dup_grp'] |}.
+Definition c17_dup_history : list (list str) :=
+  [[C17_GRP; C17_X; C17_EXTRA]; [S_help; C17_GRP; C17_X]; [C17_GRP; C17_X; C17_EXTRA];
+   [C17_GRP; C17_X; T_help]; [C17_GRP; C17_X; C17_EXTRA]].
 
-Example runs_independent_refuted_duplicate_subcommands :
-  cfg_subs_distinct c17_dup_cfg = false /\
+Example runs_independent_duplicate_subcommands :
   match build_app c17_dup_cfg with
   | Ok a =>
-    siblings_distinct a = false /\
-    map sm_action (runs_on [] a [[C17_GRP; C17_X; C17_EXTRA]; [S_help; C17_GRP; C17_X]; [C17_GRP; C17_X; C17_EXTRA]]) =
-      [AHandler [C17_GRP; C17_X]; AHelpCmd [C17_GRP; C17_X]; AError CannotParse] /\
-    sm_action (snd (run_on [] a [C17_GRP; C17_X; C17_EXTRA])) = AHandler [C17_GRP; C17_X] /\
-    fst (run_on [] a [S_help; C17_GRP; C17_X]) = [([C17_GRP; C17_X], false)]
+    map b_name (match nth_error (ap_cmds a) 1 with Some g => b_subs g | None => [] end) = [C17_X; C17_X] /\
+    map sm_action (runs_on [] a c17_dup_history) =
+      [AHandler [C17_GRP; C17_X]; AHelpCmd [C17_GRP; C17_X]; AHandler [C17_GRP; C17_X];
+       AHelpCmd [C17_GRP; C17_X]; AHandler [C17_GRP; C17_X]] /\
+    fst (run_on [] a [S_help; C17_GRP; C17_X]) = [([1; 1], true)] /\
+    runs_on [] a c17_dup_history = map (fun l => snd (run_on [] a l)) c17_dup_history
+  | Err _ => False
+  end /\
+  match build_app c17_dup_cfg' with
+  | Ok a =>
+    map sm_action (runs_on [] a c17_dup_history) =
+      [AError CannotParse; AHelpCmd [C17_GRP; C17_X]; AError CannotParse;
+       AHelpCmd [C17_GRP; C17_X]; AError CannotParse] /\
+    fst (run_on [] a [S_help; C17_GRP; C17_X]) = [([1; 1], false)] /\
+    runs_on [] a c17_dup_history = map (fun l => snd (run_on [] a l)) c17_dup_history
   | Err _ => False
   end.
 Proof. vm_compute. repeat split; reflexivity. Qed.
 
-Example restores_effective_refuted_duplicate_subcommands : forall a, build_app c17_dup_cfg = Ok a ->
-  ~ restores_effective [] a [S_help; C17_GRP; C17_X].
-Proof.
-  intros a Hb Hres. apply leniency_restored in Hres.
-  apply (f_equal (fun ap => sm_action (run_summary false ap [C17_GRP; C17_X; C17_EXTRA]))) in Hres.
-  vm_compute in Hb. injection Hb as <-. vm_compute in Hres. discriminate Hres.
-Qed.
+(* what was refuted before now holds, from the theorem *)
+Example restores_effective_duplicate_subcommands : forall a, build_app c17_dup_cfg = Ok a ->
+  restores_effective [] a [S_help; C17_GRP; C17_X] /\
+  apply_state (fst (run_on [] a [S_help; C17_GRP; C17_X])) a = apply_state [] a.
+Proof. intros a _. split; [apply restores_effective_holds|apply leniency_restored_unconditional]. Qed.
+
+(* one name, two different command objects: a default sub-command x (reached by "help grp") and a named one
+   (reached by "help grp x") have the same name path [grp; x] - only the position tells them apart *)
+Definition c17_two_grp : cmd :=
+  Cmd C17_GRP [] false false true false [] []
+    [Cmd C17_X [] true true true false [] [] [];             (* anonymous default, strict *)
+     Cmd C17_X [] false false true true [] [] []].           (* named, lenient *)
+Definition c17_two_cfg : appcfg := {| ac_opts := [c17_o_help]; ac_args := []; ac_cmds := [c17_help; c17_two_grp] |}.
+Example same_names_two_positions :
+  match build_app c17_two_cfg with
+  | Ok a =>
+    sm_action (snd (run_on [] a [S_help; C17_GRP])) = AHelpCmd [C17_GRP; C17_X] /\
+    fst (run_on [] a [S_help; C17_GRP]) = [([1; 0], false)] /\
+    sm_action (snd (run_on [] a [S_help; C17_GRP; C17_X])) = AHelpCmd [C17_GRP; C17_X] /\
+    fst (run_on [] a [S_help; C17_GRP; C17_X]) = [([1; 1], true)]
+  | Err _ => False
+  end.
+Proof. vm_compute. repeat split; reflexivity. Qed.
